@@ -38,6 +38,7 @@ class Effects:
         self.direct = {}          # qual -> set of (loc, node)
         self.calls = {}           # qual -> list of (callee name, node, receiver text, fresh?)
         self.summary = {}
+        self._cache = {}
         self.via = {}
         self.fresh = {}
         self.split = {}
@@ -252,6 +253,14 @@ class Effects:
             self.fresh[q] = fresh
 
     def _callees(self, name, recv, caller=None):
+        key = (name, recv, caller.qual if caller is not None else None)
+        c = self._cache.get(key)
+        if c is None:
+            c = self._callees_uncached(name, recv, caller)
+            self._cache[key] = c
+        return c
+
+    def _callees_uncached(self, name, recv, caller=None):
         """repository functions a call may reach: by name, narrowed by what the receiver text tells"""
         import re
         if name in GENERIC:
